@@ -213,6 +213,30 @@ func ifaceUsesNonNil(nn *nonNil, v ssa.Value, ptr ssa.Value, seen map[ssa.Value]
 			if !ifaceUsesNonNil(nn, x, ptr, seen) {
 				return false
 			}
+		case *ssa.Return:
+			// handed out together with the error of the call that produced the
+			// pointer: the (value, error) pair stays intact, and the function that
+			// returns it is itself a producer whose callers are judged in turn
+			if nn.Value(ptr, r.Block(), 0) {
+				continue
+			}
+			paired := false
+			if ex, ok := ptr.(*ssa.Extract); ok {
+				if call, ok := ex.Tuple.(*ssa.Call); ok && len(x.Results) >= 2 {
+					if eex, ok := x.Results[len(x.Results)-1].(*ssa.Extract); ok && eex.Tuple == ssa.Value(call) && isErrorType(eex.Type()) {
+						sound := len(nn.P.Callees(call)) > 0
+						for _, callee := range nn.P.Callees(call) {
+							if !nn.P.IsServitorFunc(callee) || !nn.producerSound(callee, ex.Index) {
+								sound = false
+							}
+						}
+						paired = sound
+					}
+				}
+			}
+			if !paired {
+				return false
+			}
 		default:
 			if !nn.Value(ptr, r.Block(), 0) {
 				return false
@@ -505,7 +529,11 @@ func c11R7(c *Ctx) {
 		head     ssa.Value
 	}
 	var trips []trip
-	for _, pf := range paths {
+	for _, pf0 := range paths {
+		pf, feasible := resolvePathFacts(pf0)
+		if !feasible {
+			continue
+		}
 		out := unwrapLoad(resolve(best, pf.blocks))
 		// the head this trip looks at, if any
 		var head ssa.Value
@@ -535,9 +563,12 @@ func c11R7(c *Ctx) {
 					continue
 				}
 				// len(elements) == 0
+				if k, isC := constInt(cmp.Y); isC && k == 1 && cmp.Op == token.LSS && strings.HasPrefix(path(cmp.X), "builtin:len(") && strings.Contains(path(cmp.X), ".&elements") {
+					empty = true // len < 1
+				}
 				if k, isC := constInt(cmp.Y); isC && k == 0 && strings.HasPrefix(path(cmp.X), "builtin:len(") && strings.Contains(path(cmp.X), ".&elements") {
-					if cmp.Op == token.EQL {
-						empty = true
+					if cmp.Op == token.EQL || cmp.Op == token.LEQ {
+						empty = true // len == 0, len <= 0
 					}
 				}
 				// head == nil
